@@ -335,6 +335,9 @@ def fixed_sources():
                   'kind': 'valid'}, ['fixed', 300]),
         ('text', {'base': ['raw', dict(length=2000, kind='ascii')],
                   'kind': 'valid'}, ['fixed', 512]),
+        # chunks far larger than any internal buffer size
+        ('big', {'base': ['qcow2', dict(length=300000)], 'kind': 'valid'},
+         ['fixed', 131073]),
     ]
 
 
